@@ -359,7 +359,7 @@ ALL = ["C%02d" % i for i in range(1, 21)]
 ROUND9 = {
     "C01": "A return of _input_dependencies_satisfied without a value is classified by how the callers read it ('is False' reads None as satisfied).",
     "C05": "A table that instantiate_dowhile_next_iteration keeps on the graph is keyed by every document field its own labels name the loop with (stage and name).",
-    "C06": "A constructor of dsl.py that records an error into a list parameter keeps that very list on the object, or a caller reads its list afterwards.",
+    "C06": "A constructor of dsl.py that records an error into a list parameter keeps that very list on the object, or a caller reads its list afterwards. Parameter references are substituted inside dictionary-valued arguments too, as their existence check looks there (a known finding until round 9, repaired).",
     "C07": "The writers of conf/flowir_instance.yaml and conf/manifest.yaml never remove the file they are about to replace (C14 write-discipline obligations re-used).",
     "C08": "An object stored into the component lookup index is also put into the description by the same function.",
     "C09": "On every path of ParseProducerReference the stage comes from the reference itself or the caller's index is consulted.",
